@@ -634,13 +634,27 @@ func (pk *PublicKey) VerifySignature(signed hash.Hash, sig *Signature) (err erro
 		return nil
 	case PubKeyAlgoEdDSA:
 		eddsaPublicKey := pk.PublicKey.(ed25519.PublicKey)
-		if !ed25519.Verify(eddsaPublicKey, hashBytes, append(sig.ECDSASigR.bytes, sig.ECDSASigS.bytes...)) {
+		// R and S are 32 octets each, but an MPI does not keep leading zero octets
+		eddsaSig := make([]byte, 0, ed25519.SignatureSize)
+		eddsaSig = append(eddsaSig, padToLength(sig.ECDSASigR.bytes, ed25519.SignatureSize/2)...)
+		eddsaSig = append(eddsaSig, padToLength(sig.ECDSASigS.bytes, ed25519.SignatureSize/2)...)
+		if !ed25519.Verify(eddsaPublicKey, hashBytes, eddsaSig) {
 			return errors.SignatureError("EdDSA verification failure")
 		}
 		return nil
 	default:
 		return errors.SignatureError("Unsupported public key algorithm used in signature")
 	}
+}
+
+// padToLength left-pads b with zeroes to n octets; longer values are returned as they are.
+func padToLength(b []byte, n int) []byte {
+	if len(b) >= n {
+		return b
+	}
+	bb := make([]byte, n)
+	copy(bb[n-len(b):], b)
+	return bb
 }
 
 // VerifySignatureV3 returns nil iff sig is a valid signature, made by this
